@@ -341,6 +341,114 @@ func c41TlsNegoFacts(id string) func(repo string) (string, error) {
 		}
 		fmt.Fprintf(&b, "\n/-- checkForResumption contains `if c.vers != hs.sessionState.vers { return false }`\n    (true), or only the older `sessionState.vers > clientHello.vers` / mutualVersion tests (false). -/\ndef resumeRequiresSameVersion : Bool := %v\n", sameVers)
 		fmt.Fprintf(&b, "/-- the older tests are (also) present -/\ndef resumeHasLegacyVersionTests : Bool := %v\n", oldGt && oldMutual)
+		// curves: what the ECDHE key agreement implements (curveForCurveID) and what bfe's configuration loader
+		// lets an operator name (bfe_conf.CurvesMap)
+		_, fka, err := parseFile(repo, "bfe_tls/key_agreement.go")
+		if err != nil {
+			return "", err
+		}
+		cfc := findFunc(fka, "", "curveForCurveID")
+		if cfc == nil {
+			return "", fmt.Errorf("curveForCurveID not found")
+		}
+		var impl []int64
+		var cerr error
+		ast.Inspect(cfc, func(nd ast.Node) bool {
+			cc, ok := nd.(*ast.CaseClause)
+			if !ok || cc.List == nil {
+				return true
+			}
+			if len(cc.Body) != 1 {
+				cerr = fmt.Errorf("curveForCurveID: case body not understood")
+				return false
+			}
+			rs, ok := cc.Body[0].(*ast.ReturnStmt)
+			if !ok || len(rs.Results) != 2 || c41ExprString(rs.Results[1]) != "true" {
+				cerr = fmt.Errorf("curveForCurveID: case does not return (curve, true)")
+				return false
+			}
+			for _, e := range cc.List {
+				v, ok := c41EvalConst(e, 0, env)
+				if !ok {
+					cerr = fmt.Errorf("curveForCurveID: case constant not understood")
+					return false
+				}
+				impl = append(impl, v)
+			}
+			return true
+		})
+		if cerr != nil {
+			return "", cerr
+		}
+		fmt.Fprintf(&b, "\n/-- curve ids for which `curveForCurveID` (key_agreement.go) returns a curve -/\ndef implementedCurves : List Nat := %s\n", c41NatList(impl))
+		_, fbc, err := parseFile(repo, "bfe_config/bfe_conf/conf_https_basic.go")
+		if err != nil {
+			return "", err
+		}
+		cm, ok := findValue(fbc, "CurvesMap").(*ast.CompositeLit)
+		if !ok {
+			return "", fmt.Errorf("bfe_conf.CurvesMap is not a composite literal")
+		}
+		var confCurves []int64
+		for _, e := range cm.Elts {
+			kv, ok := e.(*ast.KeyValueExpr)
+			if !ok {
+				return "", fmt.Errorf("CurvesMap: unexpected element")
+			}
+			se, ok := kv.Value.(*ast.SelectorExpr)
+			if !ok {
+				return "", fmt.Errorf("CurvesMap: value is not bfe_tls.<const>")
+			}
+			v, ok := env[se.Sel.Name]
+			if !ok {
+				return "", fmt.Errorf("CurvesMap: constant %s unknown", se.Sel.Name)
+			}
+			confCurves = append(confCurves, v)
+		}
+		fmt.Fprintf(&b, "/-- curve ids an operator can configure (values of bfe_conf.CurvesMap; GetCurvePreferences rejects other names) -/\ndef configurableCurves : List Nat := %s\n", c41NatList(confCurves))
+		// bfe_server/tls_server_rule.go: is the SNI normalised (lower case) for the rule lookup, on both sides of the map?
+		_, fsr, err := parseFile(repo, "bfe_server/tls_server_rule.go")
+		if err != nil {
+			return "", err
+		}
+		hasLower := func(fd *ast.FuncDecl) bool {
+			found := false
+			if fd == nil {
+				return false
+			}
+			ast.Inspect(fd, func(nd ast.Node) bool {
+				if c, ok := nd.(*ast.CallExpr); ok && c41ExprString(c.Fun) == "strings.ToLower" {
+					found = true
+				}
+				return true
+			})
+			return found
+		}
+		gs := findFunc(fsr, "TLSServerRuleMap", "getRuleBySni")
+		up := findFunc(fsr, "TLSServerRuleMap", "Update")
+		gr := findFunc(fsr, "TLSServerRuleMap", "getRule")
+		if gs == nil || up == nil || gr == nil {
+			return "", fmt.Errorf("tls_server_rule.go: getRule / getRuleBySni / Update not found")
+		}
+		// order of the lookups in getRule: vip, then sni, then default
+		var order []string
+		ast.Inspect(gr, func(nd ast.Node) bool {
+			if c, ok := nd.(*ast.CallExpr); ok {
+				switch c41ExprString(c.Fun) {
+				case "m.getRuleByVip", "m.getRuleBySni", "m.getDefaultRule":
+					order = append(order, c41ExprString(c.Fun))
+				}
+			}
+			return true
+		})
+		if strings.Join(order, ",") != "m.getRuleByVip,m.getRuleBySni,m.getDefaultRule" {
+			return "", fmt.Errorf("getRule: lookup order %v not understood", order)
+		}
+		lk, ld := hasLower(gs), hasLower(up)
+		if lk != ld {
+			return "", fmt.Errorf("tls_server_rule.go: SNI lower-cased on one side of the rule map only (lookup=%v, load=%v)", lk, ld)
+		}
+		fmt.Fprintf(&b, "\n/-- TLSServerRuleMap lower-cases the SNI (getRuleBySni) and the configured names (Update) before the map lookup;\n    false = both are used verbatim (case-sensitive lookup) -/\ndef sniRuleLookupNormalised : Bool := %v\n", lk)
 		b.WriteString(footer(id))
 		return b.String(), nil
 	}
